@@ -212,9 +212,12 @@ def r14_single_start(ctx: Context) -> None:
     prog = ctx.prog
     rule = ctx.rule("R14m", "a pass that starts the file in several calls gives each call its own rule list, and an empty list selects nobody", 3)
     starting = prog.method(PM, "starting_new_file")
-    if "constraint_id_list" not in starting.params:
+    from sa.util import param_by_annotation
+
+    list_param = param_by_annotation(starting, "List[str]")
+    if list_param is None:
         raise AnalysisError("PluginManager.starting_new_file no longer takes a list of rules to start")
-    position = starting.params.index("constraint_id_list") - 1
+    position = starting.params.index(list_param) - 1
     by_caller: Dict[str, List[CallSite]] = {}
     for site in prog.callers.get(starting.qualname, []):
         by_caller.setdefault(site.caller.qualname, []).append(site)
@@ -226,7 +229,7 @@ def r14_single_start(ctx: Context) -> None:
             continue
         lists = []
         for site in sites:
-            given = next((norm(k.value) for k in site.node.keywords if k.arg == "constraint_id_list"), None)
+            given = next((norm(k.value) for k in site.node.keywords if k.arg == list_param), None)
             if given is None and len(site.node.args) > position:
                 given = norm(site.node.args[position])
             lists.append(given)
@@ -241,8 +244,8 @@ def r14_single_start(ctx: Context) -> None:
     honoured = False
     for node in skips:
         facts = guards_of(starting.node, node)
-        membership = [t for t, pol in facts if pol and isinstance(t, ast.Compare) and isinstance(t.ops[0], ast.NotIn) and "constraint_id_list" in norm(t.comparators[0])]
-        truthiness = [t for t, pol in facts if pol and isinstance(t, ast.Name) and t.id == "constraint_id_list"]
+        membership = [t for t, pol in facts if pol and isinstance(t, ast.Compare) and isinstance(t.ops[0], ast.NotIn) and list_param in norm(t.comparators[0])]
+        truthiness = [t for t, pol in facts if pol and isinstance(t, ast.Name) and t.id == list_param]
         if membership and not truthiness:
             honoured = True
         elif membership and truthiness:
@@ -434,7 +437,9 @@ def r14d(ctx: Context) -> None:
         raise AnalysisError("PluginManager.apply_configuration is never called")
     for site in sites:
         bound = Program.bind_args(apply_all, site.node, skip_self=True)
-        arg = bound.get("use_full_list")
+        from sa.util import param_by_annotation
+
+        arg = bound.get(param_by_annotation(apply_all, "bool", exact=True) or "use_full_list")
         key = func_key(site.caller, site.node)
         if arg is None or (isinstance(arg, ast.Constant) and arg.value is False):
             rule.ok(key, "enabled list")
@@ -468,8 +473,10 @@ def r14e(ctx: Context) -> None:
         rule.fail(func_key(func), where(func), "the line loop no longer hands lines to PluginManager.next_line")
         return
     bound = Program.bind_args(dispatcher, call.node, skip_self=True)
-    counter = bound.get("line_number")
-    line = bound.get("line")
+    from sa.util import param_by_annotation
+
+    counter = bound.get(param_by_annotation(dispatcher, "int", exact=True) or "line_number")
+    line = bound.get(param_by_annotation(dispatcher, "str", exact=True) or "line")
     if not (isinstance(counter, ast.Name) and isinstance(line, ast.Name)):
         rule.fail(func_key(func, call.node), call.where, "line number / line text are not passed as plain variables")
         return
@@ -611,7 +618,15 @@ def r14i(ctx: Context) -> None:
             if targets & dispatchers or line_loop in targets:
                 callee = next(iter(targets & dispatchers), line_loop)
                 bound = Program.bind_args(callee, site.node, skip_self=True)
-                arg = bound.get("context_map")
+                # the per-plugin context map is the parameter typed Optional[Dict[str, PluginScanContext]]
+                map_param = next(
+                    (a.arg for a in callee.node.args.args + callee.node.args.kwonlyargs  # type: ignore[attr-defined]
+                     if a.annotation is not None and "Dict[str" in ast.unparse(a.annotation) and "PluginScanContext" in ast.unparse(a.annotation)),
+                    None,
+                )
+                if map_param is None:
+                    raise AnalysisError(f"{callee.short}: no parameter carries the per-plugin context map")
+                arg = bound.get(map_param)
                 text = None if arg is None or (isinstance(arg, ast.Constant) and arg.value is None) else norm(arg)
                 calls.append((site, callee, text))
         if len(calls) < 2:
